@@ -103,21 +103,26 @@ partial def concl : Expr → Expr
 definition equals the one the property theorems are about" (e.g. `gsD_toFn : (gsD F rows).map toFn = gs F …`) -/
 def bridgeTheorems (env : Environment) : Array (Name × Array Name) := Id.run do
   let mut out := #[]
-  for (n, ci) in env.constants.map₁.toList do
-    match ci with
-    | .thmInfo t =>
-      if isGT env n && !isInternalName n then
-        let c := concl t.type
-        if c.isAppOf ``Eq || c.isAppOf ``Iff || c.isAppOf ``HEq then
-          out := out.push (n, c.getUsedConstants.filter (isGT env))
-    | _ => pure ()
+  -- only the modules of this project are scanned (the environment also holds the imported part of Mathlib)
+  for i in [0:env.header.moduleNames.size] do
+    if (`GT).isPrefixOf env.header.moduleNames[i]! then
+      for n in env.header.moduleData[i]!.constNames do
+        match env.find? n with
+        | some (.thmInfo t) =>
+          if !isInternalName n then
+            let c := concl t.type
+            if c.isAppOf ``Eq || c.isAppOf ``Iff || c.isAppOf ``HEq then
+              out := out.push (n, c.getUsedConstants.filter (isGT env))
+        | _ => pure ()
   return out
 
 def audit : CommandElabM Unit := do
   let env ← getEnv
   let drv := closure env #[`GT.Driver.allOps] false
   let bridges := bridgeTheorems env
-  let pids := (List.range 20).map fun i => let k := i + 1; if k < 10 then s!"C0{k}" else s!"C{k}"
+  let all := (List.range 20).map fun i => let k := i + 1; if k < 10 then s!"C0{k}" else s!"C{k}"
+  let only := ((← IO.getEnv "TIE_ONLY").getD "").splitOn "," |>.filter (· ≠ "")
+  let pids := if only.isEmpty then all else all.filter (only.contains ·)
   for pid in pids do
     let obs ← readObligations pid
     let missing := obs.filter fun n => (env.find? n).isNone
